@@ -3,15 +3,8 @@
 //!                      [--transcript FILE] [--part NAME]
 //! exit: 0 = held on everything explored, 1 = violation(s), 2 = machinery error
 
-mod engine;
-mod obs;
-mod props;
-mod refmodel;
-mod rng;
-mod session;
-mod suites;
-
-use engine::{finish, replay_part, run_part, Cfg, Part, PartReport, Tier};
+use hpke_mc::engine::{finish, replay_part, run_part, Cfg, Part, PartReport, Tier};
+use hpke_mc::{obs, props, refmodel, session, suites};
 use std::path::PathBuf;
 use std::time::Instant;
 
@@ -150,6 +143,11 @@ fn main() {
         eprintln!("MACHINERY-ERROR reference model self-test failed: {}", e);
         std::process::exit(2);
     }
+    if cfg.prop == "C17-expect" {
+        // R1's version of the transcript printed by /verif/probes/src/bin/inplace.rs
+        c17_expect();
+        return;
+    }
     let mut reports: Vec<PartReport> = vec![];
     let mut replayed: Option<bool> = None;
     let mut level = "model_checking";
@@ -271,5 +269,45 @@ fn main() {
     }
     if s.machinery_errors > 0 {
         std::process::exit(2);
+    }
+}
+
+fn c17_expect() {
+    use hpke_mc::obs::hex;
+    use hpke_mc::refmodel::{setup_r, setup_s, Aead, Kdf, Kem, Mode, SuiteId, KEMS, MODES};
+    let ikm = |tag: u8, n: usize| -> Vec<u8> { (0..n).map(|i| (i as u8).wrapping_mul(37).wrapping_add(tag)).collect() };
+    for kem in KEMS {
+        let name = kem.name();
+        let nsk = kem.nsk();
+        let (sk_r, pk_r, _) = kem.derive_keypair(&ikm(1, nsk));
+        let (sk_s, pk_s, _) = kem.derive_keypair(&ikm(2, nsk));
+        println!("{} derive sk_r {} pk_r {}", name, hex(&sk_r), hex(&pk_r));
+        let psk = ikm(3, 32);
+        let psk_id = ikm(4, 9);
+        let info = b"c17 probe";
+        for (mi, mode) in MODES.iter().enumerate() {
+            // the probe numbers its modes 0 Base, 1 Psk, 2 Auth, 3 AuthPsk = RFC mode ids
+            let mode: Mode = *mode;
+            assert_eq!(mode.id() as usize, mi);
+            let s1 = SuiteId { kem, kdf: Kdf::Sha256, aead: Aead::ChaCha20Poly1305 };
+            let (enc, mut c) = setup_s(s1, mode, &pk_r, info, &psk, &psk_id, Some((&sk_s, &pk_s)), &ikm(5 + mi as u8, nsk)).unwrap();
+            let ct = c.seal(b"aad", b"in-place plaintext").unwrap();
+            let (body, tag) = ct.split_at(ct.len() - 16);
+            let ex = c.export(b"exp", 32).unwrap();
+            println!("{} mode {} enc {} ct {} tag {} export {}", name, mi, hex(&enc), hex(body), hex(tag), hex(&ex));
+            let mut r = setup_r(s1, mode, &enc, &sk_r, info, &psk, &psk_id, Some(&pk_s)).unwrap();
+            let pt = r.open(b"aad", &ct).unwrap();
+            println!("{} mode {} opened {} rexport {}", name, mi, hex(&pt), hex(&r.export(b"exp", 32).unwrap()));
+            let s2 = SuiteId { kem, kdf: Kdf::Sha512, aead: Aead::Aes128Gcm };
+            let (enc, mut c) = setup_s(s2, mode, &pk_r, info, &psk, &psk_id, Some((&sk_s, &pk_s)), &ikm(5 + mi as u8, nsk)).unwrap();
+            let ct = c.seal(b"a", b"single shot").unwrap();
+            let (body, tag) = ct.split_at(ct.len() - 16);
+            let mut r = setup_r(s2, mode, &enc, &sk_r, info, &psk, &psk_id, Some(&pk_s)).unwrap();
+            println!("{} mode {} ss-ct {} ss-tag {} ss-opened {}", name, mi, hex(body), hex(tag), hex(&r.open(b"a", &ct).unwrap()));
+        }
+        let s3 = SuiteId { kem, kdf: Kdf::Sha512, aead: Aead::ExportOnly };
+        let (_, c) = setup_s(s3, Mode::Base, &pk_r, info, b"", b"", None, &ikm(9, nsk)).unwrap();
+        println!("{} export-only {}", name, hex(&c.export(b"", 48).unwrap()));
+        let _ = Kem::X25519;
     }
 }
